@@ -75,7 +75,7 @@ def cases(draw, ctx):
         if behaviour in ("ret", "yield", "block", "exit"):
             tprog.append("payload %d" % val)
         if behaviour == "exit":
-            tprog.append("exit")
+            tprog.append(draw(st.sampled_from(["exit", "exit", "selfexit"])))
             tprog.append("work 1")   # must never run
         units.append("unit %d type=%s named=1 pool=%d : %s" % (t, tk, tpool, "; ".join(tprog) or "nop"))
         main_ops.append("create %d" % t)
